@@ -103,6 +103,9 @@ fn g_pdate(r: &mut Rng) -> Value {
     match r.range(0, 5) { 0 => {} 1 => { p["month_code"] = json!(if r.chance(1, 8) { (*r.pick(&["M1", "X05", "M5L", "m03", "M123", "M0AL", "13"])).to_string() } else { format!("M{:02}{}", r.range(1, 13), if r.chance(1, 10) { "L" } else { "" }) }); } 2 => { let m = r.range(1, 12); p["month"] = json!(m); p["month_code"] = json!(format!("M{:02}", if r.chance(3, 4) { m } else { r.range(1, 12) })); } _ => { p["month"] = json!(r.range(0, 14)); } }
     if r.chance(2, 3) { p["day"] = json!(r.range(0, 33)); }
     if r.chance(1, 12) { p["era"] = json!(*r.pick(&["ce", "bce", "heisei", "xx"])); p["era_year"] = json!(r.range(1, 2100)); p["cal"] = json!(*r.pick(&["gregory", "japanese"])); }
+    // half-supplied era information: an era without an era year, an era year without an era (the core rejects both)
+    if r.chance(1, 14) { p["era_year"] = json!(r.range(1, 2100)); if r.chance(1, 2) { p["cal"] = json!(*r.pick(&["gregory", "japanese", "iso8601"])); } }
+    else if r.chance(1, 14) { p["era"] = json!(*r.pick(&["ce", "bce", "heisei"])); if r.chance(1, 2) { p["cal"] = json!(*r.pick(&["gregory", "japanese"])); } }
     if p.as_object().unwrap().is_empty() || r.chance(1, 10) { if p.get("cal").is_none() { p["cal"] = json!("iso8601"); } }
     p
 }
